@@ -21,7 +21,14 @@ RULE = ("(pdm) random rose trees (1-12 leaves quick, up to 40 thorough; polytomi
         "NT.dist of its own result (op `ntdist`) and, for tree-generated input, with the input matrix; half of the NJ / UPGMA runs go through a "
         "tracing tree class whose node_factory records the loop state at the head of every pass (pool order, _nj_xsub of every member; "
         "_upgma_distance_from_tip, cluster size and the halved minimum), compared with the model ops `njtrace` / `uptrace`; "
-        "thorough adds every shape <= 6 leaves. When an obligation breaks or model and code disagree, `search` runs up to 2500 (thorough 40000) "
+        "(hist) histories on ONE PhylogeneticDistanceMatrix and ONE NodeDistanceMatrix object over a shared namespace: compile_from_tree -> "
+        "queries -> in-place edit of the tree (new lengths, taxon swap, subtree move, graft of an unused taxon, prune, reroot_at_node) or another "
+        "tree over the same namespace (more / fewer taxa, other order) -> compile_from_tree again / clear() / compile_from_dict / write_csv + from_csv / "
+        "Tree.phylogenetic_distance_matrix() and node_distance_matrix() called twice after an edit / nj_tree and upgma_tree run twice on the same object "
+        "(same result, matrix unaltered); after every step every ordered leaf pair (length, edge count, mrca must be THE turning node of the CURRENT tree), "
+        "mapped taxa, distances(), sums, MPD / MNTD (both weightings, normalised or not) and every node pair of the NodeDistanceMatrix are judged by the "
+        "root-path oracle on the tree as it is at that moment; "
+        "thorough adds every shape <= 6 leaves (incl. one such history per shape). When an obligation breaks or model and code disagree, `search` runs up to 2500 (thorough 40000) "
         "traced reconstruction cases on 2-12 taxa. Non-trivial = >= 4 leaves.")
 MODELLED_NOT_VERIFIED = [
     "C14: the Lean functions walk/pairNode/mirror/lookup/meanPairwise/meanNearest, scanT/scanL/tail/treeMrca/collapseBasal, njJoin/njPick/njRun, "
@@ -293,30 +300,40 @@ def case_pdm(ctx, dendropy, case, pending):
             if Fraction(d) != w:
                 ctx.fail("treemeasure", "treemeasure.patristic_distance(bits %d,%d, refresh=%s) = %s; path length is %s" % (ba, bb, upd, fr(d), fr(w)), case)
     if case.get("ndm"):
-        ndm = tree.node_distance_matrix()
-        nodes = tu.walk(tree.seed_node)
-        dm = depth_map(tree)
+        judge_ndm(ctx, tree.node_distance_matrix(), tree, case, "")
 
-        def up(nd):
-            p = []
-            while nd is not None:
-                p.append(nd)
-                nd = dm[id(nd)][1]
-            return p[::-1]
-        ps = [up(x) for x in nodes]
-        for i, a in enumerate(nodes):
-            for j, b in enumerate(nodes):
-                pa, pb = ps[i], ps[j]
-                k = 0
-                while k < len(pa) and k < len(pb) and pa[k] is pb[k]:
-                    k += 1
-                w = sum((tu.F(x.edge.length) for x in pa[k:] + pb[k:]), Fraction(0))
-                ws = len(pa) + len(pb) - 2 * k
-                if Fraction(ndm.patristic_distance(a, b)) != w or ndm.path_edge_count(a, b) != ws or ndm.mrca(a, b) is not pa[k - 1]:
-                    ctx.fail("node-distance-matrix", "NodeDistanceMatrix nodes (%d,%d): (%s, %s, mrca %s), path has (%s, %s, %s)" % (
-                        ids.of(a), ids.of(b), fr(ndm.patristic_distance(a, b)), ndm.path_edge_count(a, b), ids.of(ndm.mrca(a, b)),
-                        fr(w), ws, ids.of(pa[k - 1])), case)
-                    return
+
+def judge_ndm(ctx, ndm, tree, case, tag):
+    """every ordered pair of nodes of the CURRENT tree: length, edge count and common ancestor (a node of this tree) from root paths"""
+    nodes = tu.walk(tree.seed_node)
+    dm = depth_map(tree)
+    num = {id(x): i for i, x in enumerate(nodes)}
+
+    def up(nd):
+        p = []
+        while nd is not None:
+            p.append(nd)
+            nd = dm[id(nd)][1]
+        return p[::-1]
+    ps = [up(x) for x in nodes]
+    for i, a in enumerate(nodes):
+        for j, b in enumerate(nodes):
+            pa, pb = ps[i], ps[j]
+            k = 0
+            while k < len(pa) and k < len(pb) and pa[k] is pb[k]:
+                k += 1
+            w = sum((tu.F(x.edge.length) for x in pa[k:] + pb[k:]), Fraction(0))
+            ws = len(pa) + len(pb) - 2 * k
+            try:
+                gd, gs, gm = ndm.patristic_distance(a, b), ndm.path_edge_count(a, b), ndm.mrca(a, b)
+            except KeyError:
+                ctx.fail("node-distance-matrix", "%sNodeDistanceMatrix has no entry for nodes (%d,%d) (pre-order numbers)" % (tag, i, j), case)
+                return False
+            if Fraction(gd) != w or gs != ws or gm is not pa[k - 1]:
+                ctx.fail("node-distance-matrix", "%sNodeDistanceMatrix nodes (%d,%d) (pre-order numbers): (%s, %s, mrca %s), path has (%s, %s, %s)" % (
+                    tag, i, j, fr(gd), gs, num.get(id(gm), "not a node of the current tree"), fr(w), ws, num[id(pa[k - 1])]), case)
+                return False
+    return True
 
 
 # ------------------------------------------------------------------ op mrca
@@ -776,6 +793,294 @@ def case_matrix(ctx, dendropy, case, pending):
     run_matrix(ctx, dendropy, pdm, case, pending, None, True)
 
 
+# ------------------------------------------------------------------ op hist: ONE matrix object through a history
+def oracle_nodes(tree):
+    """independent: {(bitA, bitB): (Fraction length, edges, turning node object)} for ordered pairs of distinct leaves of the tree as it is"""
+    dm = depth_map(tree)
+
+    def rootpath(nd):
+        p = []
+        while nd is not None:
+            p.append(nd)
+            nd = dm[id(nd)][1]
+        return p[::-1]
+    lv = leaves_lr(tree)
+    paths = [rootpath(x) for x in lv]
+    out = {}
+    for i, a in enumerate(lv):
+        for j, b in enumerate(lv):
+            if i == j:
+                continue
+            pa, pb = paths[i], paths[j]
+            k = 0
+            while k < len(pa) and k < len(pb) and pa[k] is pb[k]:
+                k += 1
+            d = sum((tu.F(x.edge.length) for x in pa[k:] + pb[k:]), Fraction(0))
+            out[(kbit(a.taxon), kbit(b.taxon))] = (d, len(pa) - k + len(pb) - k, pa[k - 1])
+    return out
+
+
+def judge_matrix(ctx, dendropy, pdm, tree, case, tag, level="full"):
+    """the statement's matrix clause evaluated on a matrix object, whatever its past, against the tree AS IT IS NOW.
+    level "full": lengths, edge counts, common ancestors (nodes of the current tree), taxa, distances(), sums, MPD / MNTD;
+    level "dist": lengths only (matrix filled from a dict / read back from CSV)"""
+    lv = leaves_lr(tree)
+    n = len(lv)
+    want = oracle_nodes(tree)
+    taxa = [x.taxon for x in lv]
+    bits = [kbit(t) for t in taxa]
+    internal_root = bool(tree.seed_node._child_nodes)
+    current = set(map(id, tu.walk(tree.seed_node)))
+    if internal_root or level == "dist":
+        mapped = sorted(kbit(t) for t in pdm.taxon_iter())
+        if mapped != sorted(bits):
+            ctx.fail("reuse-taxa", "%staxon_iter yields bits %s; the leaves of the tree carry %s" % (tag, mapped, sorted(bits)), case)
+            return False
+    got = {}
+    for a, ba in zip(taxa, bits):
+        for b, bb in zip(taxa, bits):
+            if a is b:
+                continue
+            try:
+                d = pdm.patristic_distance(a, b)
+                if level == "full":
+                    st, m = pdm.path_edge_count(a, b), pdm.mrca(a, b)
+            except KeyError:
+                ctx.fail("reuse-missing", "%sno matrix entry for leaf taxa bits (%d,%d)" % (tag, ba, bb), case)
+                return False
+            w = want[(ba, bb)]
+            if level == "dist":
+                if not close(d, w[0], 1e-12):
+                    ctx.fail("reuse-entry", "%staxa bits (%d,%d): matrix gives length %s; the unique path has %s" % (tag, ba, bb, fr(d), fr(w[0])), case)
+                    return False
+                continue
+            if Fraction(d) != w[0] or st != w[1]:
+                ctx.fail("reuse-entry", "%staxa bits (%d,%d): matrix gives (length %s, edges %s); the unique path has (length %s, edges %s)" % (
+                    tag, ba, bb, fr(d), st, fr(w[0]), w[1]), case)
+                return False
+            if m is not w[2]:
+                ctx.fail("reuse-mrca", "%staxa bits (%d,%d): mrca() is %s" % (
+                    tag, ba, bb, "another node of the current tree than the one where the path turns" if id(m) in current
+                    else "not a node of the current tree"), case)
+                return False
+    if level != "full":
+        return True
+    for weighted in (True, False):
+        ds = sorted(Fraction(x) for x in pdm.distances(is_weighted_edge_distances=weighted))
+        wd = sorted(Fraction(v[0] if weighted else v[1]) for (a, b), v in want.items() if a < b)
+        if ds != wd:
+            ctx.fail("reuse-distances", "%sdistances(weighted=%s) = [%s]; the unordered leaf pairs have [%s]" % (
+                tag, weighted, " ".join(map(fr, ds)), " ".join(map(fr, wd))), case)
+            return False
+        if Fraction(pdm.sum_of_distances(is_weighted_edge_distances=weighted)) != sum(wd, Fraction(0)):
+            ctx.fail("reuse-distances", "%ssum_of_distances(weighted=%s) is not the sum over unordered pairs" % (tag, weighted), case)
+            return False
+        total = tu.total_length(tree)
+        nedges = len(tu.walk(tree.seed_node))
+        for norm in (False, True):
+            if norm and weighted and total == 0:
+                continue
+            nf = (total if weighted else Fraction(nedges)) if norm else Fraction(1)
+            val = (lambda a, b: want[(a, b)][0]) if weighted else (lambda a, b: Fraction(want[(a, b)][1]))
+            for kind in ("mpd", "mntd"):
+                fn = pdm.mean_pairwise_distance if kind == "mpd" else pdm.mean_nearest_taxon_distance
+                try:
+                    r = fn(is_weighted_edge_distances=weighted, is_normalize_by_tree_size=norm)
+                except dendropy.utility.error.NullAssemblageException:
+                    r = None
+                if kind == "mpd":
+                    vals = [val(a, b) for a, b in itertools.combinations(bits, 2)]
+                else:
+                    vals = [min(val(a, b) for b in bits if b != a) for a in bits] if n >= 2 else []
+                exact = None if not vals else sum(vals, Fraction(0)) / nf / len(vals)
+                if (r is None) != (exact is None) or (r is not None and not close(r, exact, 1e-12)):
+                    ctx.fail("reuse-summary", "%s%s(weighted=%s, normalised=%s) = %r; the average of the path values is %s" % (
+                        tag, kind, weighted, norm, r, None if exact is None else fr(exact)), case)
+                    return False
+    if len(list(pdm.distinct_taxon_pair_iter())) != n * (n - 1) // 2:
+        ctx.fail("reuse-taxa", "%sdistinct_taxon_pair_iter does not yield the %d pairs of the %d leaves" % (tag, n * (n - 1) // 2, n), case)
+        return False
+    return True
+
+
+def hist_edit(tree, how, dendropy):
+    """edit the current tree in place (plain Node surgery, except `reroot`); nodes are addressed by pre-order position"""
+    nodes = tu.walk(tree.seed_node)
+    lv = [x for x in nodes if not x._child_nodes]
+    kind = how[0]
+    if kind == "relen":
+        vals = how[1]
+        for i, nd in enumerate(nodes):
+            if nd._parent_node is not None:
+                v = vals[i % len(vals)]
+                nd.edge.length = None if v == "N" else float(Fraction(v))
+    elif kind == "swap" and len(lv) >= 2:
+        a, b = lv[how[1] % len(lv)], lv[how[2] % len(lv)]
+        a.taxon, b.taxon = b.taxon, a.taxon
+    elif kind == "move":
+        cand = [x for x in nodes if x._parent_node is not None and len(x._parent_node._child_nodes) >= 2]
+        if cand:
+            x = cand[how[1] % len(cand)]
+            below = set(map(id, tu.walk(x)))
+            dest = [y for y in nodes if id(y) not in below and y is not x._parent_node and y._child_nodes]
+            if dest:
+                y = dest[how[2] % len(dest)]
+                x._parent_node.remove_child(x)
+                y.add_child(x)
+    elif kind == "graft":
+        used = {kbit(x.taxon) for x in lv if x.taxon is not None}
+        free = sorted(kbit(t) for t in tree.taxon_namespace if kbit(t) not in used)
+        dest = [y for y in nodes if y._child_nodes]
+        if free and dest:
+            nd = dendropy.Node()
+            nd.taxon = [t for t in tree.taxon_namespace if kbit(t) == free[how[1] % len(free)]][0]
+            nd.edge.length = float(Fraction(how[3]))
+            dest[how[2] % len(dest)].add_child(nd)
+    elif kind == "prune" and len(lv) >= 3:
+        cand = [x for x in lv if x._parent_node is not None and len(x._parent_node._child_nodes) >= 2]
+        if cand:
+            x = cand[how[1] % len(cand)]
+            x._parent_node.remove_child(x)
+    elif kind == "reroot":
+        cand = [x for x in nodes if x._child_nodes and x._parent_node is not None]
+        if cand:
+            tree.reroot_at_node(cand[how[1] % len(cand)], update_bipartitions=False, suppress_unifurcations=False,
+                                collapse_unrooted_basal_bifurcation=False)
+
+
+def case_hist(ctx, dendropy, case, pending):
+    """one PhylogeneticDistanceMatrix and one NodeDistanceMatrix object live through the whole history; after every step that
+    (re)fills them they must describe the tree as it is at that moment"""
+    from dendropy.calculate.phylogeneticdistance import PhylogeneticDistanceMatrix, NodeDistanceMatrix
+    tns = dendropy.TaxonNamespace(["t%d" % i for i in range(case["ns"])])
+    steps = case["steps"]
+    ctx.case(["hist", case["ns"], steps], len(steps) >= 2, sample=case, kind="hist")
+    pdm = PhylogeneticDistanceMatrix()
+    ndm = NodeDistanceMatrix()
+    tree = None
+    level = None        # what the matrix object is expected to hold now
+    for k, st in enumerate(steps):
+        act = st["act"]
+        tag = "step %d (%s) of a history on one matrix object: " % (k, act)
+        if act == "compile":
+            tree, _ = tu.tree_from_tokens(dendropy, st["tree"], rooted=st.get("rooted"), tns=tns)
+        elif act == "edit":
+            if tree is None:
+                continue
+            hist_edit(tree, tuple(st["how"]), dendropy)
+        elif act == "clear":
+            pdm.clear()
+            ndm.clear()
+            level = None
+            continue
+        if tree is None or not good_tree(tree) or len(leaves_lr(tree)) < 1:
+            return
+        n = len(leaves_lr(tree))
+        if act in ("compile", "edit", "recompile"):
+            with time_limit(30):
+                pdm.compile_from_tree(tree)
+            level = "full"
+            if not judge_matrix(ctx, dendropy, pdm, tree, case, tag):
+                return
+            if len(tu.walk(tree.seed_node)) <= 20:
+                with time_limit(30):
+                    ndm.compile_from_tree(tree)
+                if not judge_ndm(ctx, ndm, tree, case, tag):
+                    return
+        elif act == "fresh":
+            # Tree.phylogenetic_distance_matrix() repeatedly around edits: each call describes the tree as it is
+            for rep in range(2):
+                if not judge_matrix(ctx, dendropy, tree.phylogenetic_distance_matrix(), tree, case, tag + "call %d: " % rep):
+                    return
+            if len(tu.walk(tree.seed_node)) <= 20 and not judge_ndm(ctx, tree.node_distance_matrix(), tree, case, tag):
+                return
+        elif act == "dict":
+            want = oracle_nodes(tree)
+            by = {kbit(x.taxon): x.taxon for x in leaves_lr(tree)}
+            # as from_csv hands it over: every taxon has a row and its diagonal cell (a dict lacking rows makes _mirror_lookups grow
+            # the dict it iterates, one lacking the diagonal cannot be written as CSV: input conventions, outside the statement)
+            dd = {by[a]: {by[a]: 0.0} for a in sorted(by)}
+            for (a, b), v in want.items():
+                if st.get("both") or a < b:
+                    dd.setdefault(by[a], {})[by[b]] = float(v[0])
+            if n < 2:
+                continue
+            pdm.compile_from_dict(dd, tns)
+            level = "dist"
+            if not judge_matrix(ctx, dendropy, pdm, tree, case, tag, "dist"):
+                return
+        elif act == "csv":
+            if level is None or n < 2:
+                continue
+            buf = io.StringIO()
+            pdm.write_csv(buf, is_normalize_by_tree_size=False)
+            back = PhylogeneticDistanceMatrix.from_csv(io.StringIO(buf.getvalue()), taxon_namespace=tns)
+            if not judge_matrix(ctx, dendropy, back, tree, case, tag + "read back from CSV: ", "dist"):
+                return
+            if not judge_matrix(ctx, dendropy, pdm, tree, case, tag + "after write_csv: ", level):
+                return
+        elif act == "nj2":
+            if level is None or n < 2:
+                continue
+            index_of = {id(t): i for i, t in enumerate(pdm.taxon_iter())}
+            for method in ("nj", "upgma"):
+                fn = pdm.nj_tree if method == "nj" else pdm.upgma_tree
+                with time_limit(60):
+                    f1 = flat_impl(fn(), index_of)
+                    f2 = flat_impl(fn(), index_of)
+                if f1 != f2:
+                    ctx.fail("reuse-nj-repeat", "%s%s_tree() run twice on the same matrix object returns different trees" % (tag, method), case)
+                    return
+            # a run must not consume or alter the matrix
+            if not judge_matrix(ctx, dendropy, pdm, tree, case, tag + "after the runs: ", level):
+                return
+            if n <= 9:
+                run_matrix(ctx, dendropy, pdm, case, pending, None, True)
+
+
+def gen_hist(ctx, dendropy, rng, max_leaves):
+    ns = rng.randint(3, max(4, max_leaves))
+    tns = tu.make_namespace(dendropy, ns)
+
+    def some_tree():
+        n = rng.randint(2, ns) if rng.random() < 0.9 else rng.randint(1, 2)
+        shape = tu.rand_shape(rng, n, p_poly=rng.choice([0.0, 0.3, 0.7]), p_unary=rng.choice([0.0, 0.0, 0.2]))
+        nr = rng.choice([0.0, 0.0, 0.2])
+        tree = tu.build_tree(dendropy, shape, tns, rng.sample(list(tns), n), lambda: tu.dyadic(rng, nr, 0.05), None)
+        return tu.encode_tree(tree)[0]
+
+    def lens():
+        return [("N" if rng.random() < 0.1 else fr(tu.dyadic(rng, 0.0, 0.05))) for _ in range(rng.randint(3, 7))]
+
+    def edit():
+        k = rng.choice(["relen", "relen", "swap", "move", "graft", "prune", "reroot"])
+        if k == "relen":
+            return ["relen", lens()]
+        return [k, rng.randrange(100), rng.randrange(100), fr(tu.dyadic(rng, 0.0, 0.0))]
+    steps = [{"act": "compile", "tree": some_tree(), "rooted": rng.choice([True, False, None])}]
+    for _ in range(rng.randint(1, 5)):
+        r = rng.random()
+        if r < 0.30:
+            steps.append({"act": "compile", "tree": some_tree(), "rooted": rng.choice([True, False, None])})
+        elif r < 0.58:
+            steps.append({"act": "edit", "how": edit()})
+        elif r < 0.66:
+            steps.append({"act": "clear"})
+            steps.append({"act": "recompile"})
+        elif r < 0.74:
+            steps.append({"act": "dict", "both": rng.random() < 0.4})
+        elif r < 0.80:
+            steps.append({"act": "csv"})
+        elif r < 0.90:
+            steps.append({"act": "nj2"})
+        else:
+            steps.append({"act": "edit", "how": edit()})
+            steps.append({"act": "fresh"})
+    if rng.random() < 0.5:
+        steps.append({"act": "recompile"})
+    return {"op": "hist", "ns": ns, "steps": steps}
+
+
 # ------------------------------------------------------------------ model comparison
 def flush(ctx, pending):
     outs = ctx.ask([p[0] for p in pending])
@@ -987,7 +1292,7 @@ def gen_matrix(ctx, rng, max_n):
 
 def one_case(ctx, dendropy, case, pending):
     op = case["op"]
-    fn = {"pdm": case_pdm, "mrca": case_mrca, "recon": case_recon, "matrix": case_matrix, "tm": case_tm}.get(op)
+    fn = {"pdm": case_pdm, "mrca": case_mrca, "recon": case_recon, "matrix": case_matrix, "tm": case_tm, "hist": case_hist}.get(op)
     if fn is None:
         raise ValueError(op)
     try:
@@ -1031,8 +1336,10 @@ def run(ctx):
             break
         r = rng.random()
         ml = max_leaves if rng.random() < 0.85 else 12
-        if r < 0.36:
+        if r < 0.30:
             case = gen_pdm(ctx, dendropy, rng, ml)
+        elif r < 0.39:
+            case = gen_hist(ctx, dendropy, rng, min(ml, ctx.pick(8, 14)))
         elif r < 0.62:
             case = gen_mrca(ctx, dendropy, rng, ml)
         elif r < 0.72:
@@ -1073,6 +1380,19 @@ def exhaustive(ctx, dendropy, rng, pending):
                                              "start": 0, "refresh": refresh, "route": "mask", "explicit_start": False}, pending)
                     count += 1
             if n >= 2:
+                # one matrix object: this shape, new lengths, another tree over the same taxa, this shape again, NJ/UPGMA twice
+                other = tu.build_tree(dendropy, tu.rand_shape(rng, rng.randint(2, n), p_poly=0.3, p_unary=0.0), tns,
+                                      rng.sample(list(tns), n)[:rng.randint(2, n)], lambda: tu.dyadic(rng, 0.1), None)
+                ol = len(leaves_lr(other))
+                other = tu.build_tree(dendropy, tu.rand_shape(rng, ol, p_poly=0.3, p_unary=0.0), tns, rng.sample(list(tns), ol),
+                                      lambda: tu.dyadic(rng, 0.1), None)
+                one_case(ctx, dendropy, {"op": "hist", "ns": n, "steps": [
+                    {"act": "compile", "tree": toks, "rooted": True},
+                    {"act": "edit", "how": ["relen", [fr(tu.dyadic(rng, 0.0, 0.05)) for _ in range(5)]]},
+                    {"act": "compile", "tree": tu.encode_tree(other)[0], "rooted": None},
+                    {"act": "compile", "tree": toks, "rooted": True},
+                    {"act": "nj2"}]}, pending)
+                count += 1
                 for kind in ("additive", "ultrametric"):
                     for neartie in (False, True):
                         one_case(ctx, dendropy, {"op": "recon", "tree": positive_lengths(rng, toks, kind == "ultrametric", neartie),
